@@ -51,6 +51,9 @@ def gen_case(rng):
         "lazy_missing": lazy is not None and rng.random() < 0.3,
         "delete": rng.random() < 0.7, "link": rng.choice(["copy", "copy", "hardlink", "symlink"]),
         "local": rng.random() < 0.5,
+        # some target files have a cache storage of their own, registered at the file's key and backed by another store
+        # (how one storage per output is registered): their objects are only there
+        "own_storage": sorted("/".join(k) for k in target if (lazy is None or k[0] != lazy) and rng.random() < 0.25) if rng.random() < 0.4 else [],
     }
 
 
@@ -105,7 +108,7 @@ def target_entries(case):
     return ents
 
 
-def build_target(case, odb):
+def build_target(case, odb, odb2=None):
     from dvc_data.hashfile.hash_info import HashInfo
     from dvc_data.hashfile.meta import Meta
     from dvc_data.index.index import DataIndex, DataIndexEntry, ObjectStorage
@@ -114,6 +117,8 @@ def build_target(case, odb):
     ex = {tuple(k) for k in case["exec_target"]}
     idx = DataIndex()
     idx.storage_map.add_cache(ObjectStorage((), odb))
+    for k in case.get("own_storage", []) if odb2 is not None else []:
+        idx.storage_map.add_cache(ObjectStorage(tuple(k.split("/")), odb2))
     lazy = case["lazy"]
     dirs = sorted({k[:i] for k in tgt for i in range(1, len(k))})
     for d in dirs:
@@ -144,10 +149,13 @@ def run_impl(ctx, case):
     for d in case["empty_dirs"]:
         os.makedirs(os.path.join(ws, *d), exist_ok=True)
     odb = stores.make_odb(os.path.join(root, "odb"), local=case["local"], type=[case["link"]])
+    odb2 = stores.make_odb(os.path.join(root, "odb2"), local=case["local"], type=[case["link"]])
+    own = {tuple(k.split("/")) for k in case.get("own_storage", [])}
     for k, c in tgt.items():
         h = md5hex(c)
         if h not in case["missing"]:
-            stores.put_raw(odb.path, h, c)
+            # each object only in the store its entry's storage names
+            stores.put_raw(odb2.path if k in own else odb.path, h, c)
     if case["lazy"] is not None and not case.get("lazy_missing"):
         sub = {k[1:]: md5hex(c) for k, c in tgt.items() if k[0] == case["lazy"]}
         stores.put_raw(odb.path, gen.canonical_oid(sub), gen.canonical_listing(sub))
@@ -159,7 +167,7 @@ def run_impl(ctx, case):
 
     def f():
         old = md5(build(ws, fs))
-        new = build_target(case, odb)
+        new = build_target(case, odb, odb2)
         diff = compare(old, new, delete=case["delete"])
         acts = {n: sorted("/".join(e.key) for e in getattr(diff, n)) for n in ("files_delete", "dirs_delete", "files_create", "dirs_create", "files_chmod")}
         apply(diff, ws, fs, update_meta=False, onerror=onerror, links=[case["link"]] if case["link"] != "copy" else None)
@@ -170,7 +178,7 @@ def run_impl(ctx, case):
 
     def g():
         old2 = md5(build(ws, fs))
-        new2 = build_target(case, odb)
+        new2 = build_target(case, odb, odb2)
         d2 = compare(old2, new2, delete=case["delete"])
         return {n: sorted("/".join(e.key) for e in getattr(d2, n)) for n in ("files_delete", "dirs_delete", "files_create", "dirs_create", "files_chmod")}
 
@@ -216,6 +224,7 @@ def check(ctx, case, ans=None):
     ctx.count("lazy_dir=%s" % (case["lazy"] is not None))
     ctx.count("kind_change=%s" % kindchg)
     ctx.count("unavailable=%d" % min(len(case["missing"]), 2))
+    ctx.count("own_storage=%d" % min(len(case.get("own_storage", [])), 2))
     if case.get("lazy_missing"):
         # the directory object of the target cannot be loaded: it must be reported, never silently skipped
         ctx.count("unloadable_dir_object")
